@@ -84,10 +84,12 @@ impl Hsla {
 fn deg_mod(value: f64) -> f64 {
     let turn = 360.;
     let value = value % turn;
-    if value.is_sign_negative() {
-        value + turn
+    if value < 0. {
+        // A tiny negative value would round up to a full turn.
+        (value + turn) % turn
     } else {
-        value
+        // Includes negative zero.
+        value.abs()
     }
 }
 
